@@ -201,6 +201,8 @@ fn c05_suite<S: ShortGroupSignatureScheme + 'static>(em: &mut Emitter, base: &mu
                 _ => continue,
             };
             judge(em, "c05", suite, &format!("{}-on-other-claim", kind), &scn, &p, &format!("signed index {} proved for index {}", ci, j));
+            // model: what the verifier recomputes for the claim index it was asked about (not the one the holder used)
+            recommit_lines(em, suite, &scn.schema, &p, &scn.nonce);
             // shape the proof's own disclosed-index list in every order
             if let Some(PresentationProofs::Signature(sp)) = p.proofs.get(&sid) {
                 let entries: Vec<(usize, Scalar)> = sp.disclosed_messages.iter().map(|(i, s)| (*i, *s)).collect();
